@@ -103,7 +103,10 @@ def findap_msgs(y, tol, res):
     got = {}
     for name, fn in variants().items():
         try:
-            pv = np.asarray(fn(y.copy(), tol))
+            yin = y.copy()
+            pv = np.asarray(fn(yin, tol))
+            if not np.array_equal(yin, y):
+                out.append(("mutate/" + name, "findap[%s] modified its input %s -> %s" % (name, y.tolist(), yin.tolist())))
         except Exception as e:  # noqa
             out.append(("raise/" + name, "findap[%s](%s, tol=%g) raised %r" % (name, y.tolist(), tol, e)))
             continue
@@ -188,7 +191,11 @@ def table_msgs(cyc, res, tag):
                     continue
                 case = dict(part="binify", tag=tag, cyc=cyc.tolist(), amp=aspec, mean=mspec, right=right, cb=cb)
                 try:
-                    tab, ab, mb = cyclecount.binify(cyc, ab_in, mb_in, right=right, retbins=True, use_pandas=False, check_bounds=cb)
+                    cyc_in = cyc.copy()
+                    ab_snap = np.array(ab_in, dtype=float).copy()
+                    tab, ab, mb = cyclecount.binify(cyc_in, ab_in, mb_in, right=right, retbins=True, use_pandas=False, check_bounds=cb)
+                    if not np.array_equal(cyc_in, cyc) or not np.array_equal(np.array(ab_in, dtype=float), ab_snap):
+                        msgs.append((case, "binify modified its input table or bin specification", "binify-mutate"))
                 except IndexError as e:
                     # documented: with check_bounds=False the caller guarantees coverage
                     covered = _covers(cyc, ab_in, mb_in, right)
@@ -341,7 +348,10 @@ def fde_msgs(cfg, res):
     kw = dict(resp=cfg["resp"], nbins=cfg["nbins"], T0=cfg["T0"], rolloff=cfg["rolloff"], hpfilter=cfg["hp"], winends=cfg["we"], parallel="no")
     Q = cfg["Q"]
     msgs = []
-    f = fdepsd.fdepsd(sig, sr, freq, Q, **kw)
+    sig_in, freq_in = sig.copy(), freq.copy()
+    f = fdepsd.fdepsd(sig_in, sr, freq_in, Q, **kw)
+    if not (np.array_equal(sig_in, sig) and np.array_equal(freq_in, freq)):
+        msgs.append("fdepsd modified its input signal / frequency vector")
     res.ev("fdepsd/%s/%s/nb%d" % (cfg["resp"], cfg["rolloff"], cfg["nbins"]))
     nb = cfg["nbins"]
     T0 = cfg["T0"]
